@@ -74,3 +74,93 @@ Proof.
   unfold is_gen, help_dispatch. intros ->. cbn.
   destruct (cf_debug cf && _); [right; exact I|left; reflexivity].
 Qed.
+
+(** ** The step of a frame that covers a slot *)
+Ltac b2p :=
+  repeat match goal with
+  | H : (_ && _) = true |- _ => apply andb_prop in H; destruct H
+  | H : (_ || _) = true |- _ => apply Bool.orb_true_iff in H
+  | H : (_ =? _) = true |- _ => apply N.eqb_eq in H
+  | H : (_ <=? _) = true |- _ => apply N.leb_le in H
+  | H : (_ <? _) = true |- _ => apply N.ltb_lt in H
+  | H : (_ =? _) = false |- _ => apply N.eqb_neq in H
+  | H : (_ && _) = false |- _ => apply Bool.andb_false_iff in H
+  | H : negb _ = true |- _ => apply Bool.negb_true_iff in H
+  | H : negb _ = false |- _ => apply Bool.negb_false_iff in H
+  end.
+
+Lemma Cs_intro a n j f : pay_old f = Some a -> covers_slot n j f = true -> Cs a n j f = true.
+Proof. intros H1 H2. unfold Cs, pay_frame_of. rewrite H1, H2, N.eqb_refl. reflexivity. Qed.
+
+Ltac cov_goal :=
+  cbn [covers_slot covers_help]; b2p;
+  repeat match goal with
+         | |- (_ && _) = true => apply andb_true_intro; split
+         | |- (_ =? _) = true => apply N.eqb_eq
+         | |- (_ <=? _) = true => apply N.leb_le
+         | |- (_ <? _) = true => apply N.ltb_lt
+         end.
+
+Lemma dispatch_Cs cf l c a w ctl n j :
+  n <= w -> ~ nx_stops (help_dispatch cf l c a w ctl) ->
+  exists f, In f (nx_frames (help_dispatch cf l c a w ctl)) /\ Cs a n j f = true.
+Proof.
+  intros Hle Hns. destruct (help_dispatch_cases cf l c a w ctl) as [H|[->|[_ ->]]]; [contradiction|..];
+    (eexists; split; [left; reflexivity|]; apply Cs_intro; [reflexivity|]; cbn [covers_slot]).
+  - destruct (N.eq_dec n w) as [->|Hne].
+    + rewrite N.eqb_refl. replace (0 <=? j) with true by (symmetry; apply N.leb_le; lia). apply Bool.orb_true_r.
+    + replace (n <? w) with true by (symmetry; apply N.ltb_lt; lia). reflexivity.
+  - apply N.leb_le. exact Hle.
+Qed.
+
+Lemma after_slot_Cs c a w j0 n j :
+  j <= HSLOT -> (n < w \/ (n = w /\ j0 < j)) ->
+  exists f, In f (nx_frames (after_slot c a w j0)) /\ Cs a n j f = true.
+Proof.
+  intros Hj H. unfold after_slot. destruct (N.eqb_spec j0 HSLOT) as [->|Hne];
+    (eexists; split; [left; reflexivity|]; apply Cs_intro; [reflexivity|]; cbn [covers_slot]).
+  - apply N.ltb_lt. lia.
+  - destruct H as [H|[-> H]].
+    + replace (n <? w) with true by (symmetry; apply N.ltb_lt; lia). reflexivity.
+    + rewrite N.eqb_refl. replace (j0 + 1 <=? j) with true by (symmetry; apply N.leb_le; lia). apply Bool.orb_true_r.
+Qed.
+
+Lemma upd_slot_ne s w j0 n j a :
+  mem (m_set s (LSlot w j0) NONE) (LSlot n j) = a -> a <> NONE -> ~ (n = w /\ j = j0).
+Proof. intros H Ha [-> ->]. cbn in H. rewrite upd_same in H. congruence. Qed.
+
+Lemma PS_strict n w j0 j : (n <? w) || (n =? w) && (j0 <=? j) = true -> ~ (n = w /\ j = j0) ->
+  n < w \/ (n = w /\ j0 < j).
+Proof. intros H Hne. b2p. destruct H as [H|H]; b2p; [left; lia|]. right. split; [assumption|]. lia. Qed.
+
+Lemma exec_cover_slot cf s l p x s' l' evs nx a n j :
+  exec cf s l p x = (s', l', evs, nx) -> ~ nx_stops nx ->
+  Cs a n j p = true -> a <> 0 -> a <> NONE -> n < mem s LHead -> j <= HSLOT ->
+  mem s (LSlot n j) = a -> mem s' (LSlot n j) = a ->
+  exists f, In f (nx_frames nx) /\ Cs a n j f = true.
+Proof.
+  intros He Hns HC Ha0 Ha3 Hn Hj Hm Hm'. unfold Cs, pay_frame_of in HC.
+  destruct p; try discriminate HC; cbn [pay_old] in HC; apply andb_prop in HC as [Ho HC];
+    apply N.eqb_eq in Ho; subst old; cbn [covers_slot] in HC; try discriminate HC.
+  all: exec_norm He; try (exfalso; apply Hns; exact I).
+  all: try (eexists; split; [left; reflexivity|]; apply Cs_intro; [reflexivity|]; cbn [covers_slot]; b2p;
+            repeat match goal with |- (_ && _) = true => apply andb_true_intro; split
+                                 | |- (_ <=? _) = true => apply N.leb_le | |- (_ <? _) = true => apply N.ltb_lt end; try lia; fail).
+  - b2p. lia.
+  - apply dispatch_Cs; [b2p; lia|exact Hns].
+  - exists (WHelpRepl c a w ctl). split; [cbn; apply in_or_app; right; left; reflexivity|].
+    apply Cs_intro; [reflexivity|exact HC].
+  - apply dispatch_Cs; [b2p; lia|exact Hns].
+  - apply dispatch_Cs; [b2p; lia|exact Hns].
+  - apply dispatch_Cs; [b2p; lia|exact Hns].
+  - pose proof (PS_strict _ _ _ _ HC (upd_slot_ne _ _ _ _ _ _ Hm' Ha3)) as Hs.
+    eexists; split; [left; reflexivity|]. apply Cs_intro; [reflexivity|]. cbn [covers_slot].
+    destruct Hs as [Hs|[-> Hs]].
+    + replace (n <? w) with true by (symmetry; apply N.ltb_lt; lia). reflexivity.
+    + rewrite N.eqb_refl. replace (j0 <? j) with true by (symmetry; apply N.ltb_lt; lia). apply Bool.orb_true_r.
+  - apply after_slot_Cs; [exact Hj|]. apply (PS_strict _ _ _ _ HC). apply (upd_slot_ne _ _ _ _ _ _ Hm' Ha3).
+  - apply after_slot_Cs; [exact Hj|]. apply (PS_strict _ _ _ _ HC).
+    intros [-> ->]. rewrite Hm, N.eqb_refl in *. discriminate.
+  - apply after_slot_Cs; [exact Hj|]. b2p. destruct HC as [HC|HC]; b2p; [left|right]; auto.
+  - b2p. lia.
+Qed.
